@@ -1,4 +1,5 @@
 import Asts.Spec.Reconcile
+import Asts.Spec.Glue2
 import Asts.Driver.Util
 namespace Asts.Driver
 open Asts
@@ -109,10 +110,7 @@ def monitorRc (c : RcCase) (obs : String) : String :=
     ("C03.justified", C03 v c.upd c.pods acts (out == "ok")),
     ("C04.vacant", !wf || C04 v c.pods acts),
     -- "whose failed/succeeded pod it has just REMOVED": no create at an ordinal whose delete in this reconcile was refused
-    ("C04.removed", (List.range acts.length).all (fun k => match acts[k]? with
-        | some (.create o _) => !(c.faults.contains (1, o) &&
-            (acts.take k).any (fun b => match b with | .delete o' (some _) => o' == o | _ => false))
-        | _ => true)),
+    ("C04.removed", C04removedRc c.faults acts),
     ("C05.ordered", v.parallel || !wf || C05 v c.pods acts),
     ("C07.rolling", !wf || C07 v c.cur c.upd c.pods acts),
     -- "built from" the revision: the created pod's template is the one its revision label names (observed by the harness)
